@@ -556,6 +556,17 @@ def sibling_reference_sites(ck, rule):
             ca = A.kwarg(c, "context_args") or A.kwarg(c, RESERVED)
             if ca is None and A.call_attr(c) == "FunctionReferenceWithArguments" and len(c.args) > 3:
                 ca = c.args[3]
+            if ca is None and fa.nodes(c):
+                # handed over inside a spread mapping: with_args(*args, **{**kwargs, KEY: context_args})
+                for k in c.keywords:
+                    if k.arg is None:
+                        try:
+                            sh = map_shape(fa.expand(k.value, fa.nodes(c)[0]))
+                        except AnalysisError:
+                            sh = None
+                        for (kk, vv) in (sh[1] if sh is not None else []):
+                            if kk in (RESERVED, "context_args"):
+                                ca = vv
             ok = False
             if ca is not None:
                 ids = fa.nodes(c)
@@ -873,7 +884,9 @@ def check(ck):
                     continue
                 if isinstance(n, ast.Call) and A.call_attr(n) == "update" and "context_args" in A.norm(A.call_recv(n)):
                     merges.append((fi, n))
-                if isinstance(n, ast.Dict) and any(k is None for k in n.keys) and sum(1 for v in n.values if "context_args" in A.norm(v)) >= 1 and len(n.values) > 1:
+                # a display that pours a context-args mapping in together with something else ({**a.context_args, **b} /
+                # {**a.context_args, 'k': v}); context args stored as ONE value under a key are not a merge
+                if isinstance(n, ast.Dict) and len(n.values) > 1 and any(k is None and "context_args" in A.norm(v) for k, v in zip(n.keys, n.values)):
                     merges.append((fi, n))
                 if isinstance(n, ast.BinOp) and isinstance(n.op, ast.BitOr) and "context_args" in A.norm(n.left) and "context_args" in A.norm(n.right):
                     merges.append((fi, n))
